@@ -94,7 +94,7 @@ def make(variant: str) -> Any:
         from ml_pipeline_engine.dag_builders.annotation.builder import build_dag
         from ml_pipeline_engine.node import build_node
         from ml_pipeline_viewer.visualization.dag import GraphConfigImpl
-        from ..fam_nodes import CLASSES, CustomType, GenericBase, Untyped
+        from ..fam_nodes import CLASSES, CustomType, EnumTyped, GenericBase, Untyped
 
         def h(sym: Any) -> Tuple[str, Dict[str, Any]]:
             prog = F.program(sym)
@@ -109,6 +109,9 @@ def make(variant: str) -> Any:
                     classes[1] = build_node(GenericBase, node_name="f1", class_name="GenericF1", a=M.Input(classes[0]))
                     F.annotate(prog, classes)
                     classes[1].process.__annotations__ = {"a": M.Input(classes[0]), "additional_data": Optional[Any]}
+                elif variant == "enum_typed":
+                    classes[1] = EnumTyped
+                    F.annotate(prog, classes)
                 elif variant == "untyped":
                     classes[1] = Untyped
                     F.annotate(prog, classes)
@@ -126,12 +129,19 @@ def make(variant: str) -> Any:
                 if dag is not None:
                     snap = graph_snapshot(dag)
                     try:
-                        cfg = GraphConfigImpl(dag).generate(name="g", verbose_name="G", repo_link="http://x")
+                        impl = GraphConfigImpl(dag)
+                        cfg = impl.generate(name="g", verbose_name="G", repo_link="http://x")
+                        # the same object asked again (e.g. with colours): both descriptions must be right
+                        cfg2 = impl.generate(name="g", node_colors={"processor": "#fff"})
                     except Exception as e:  # noqa: BLE001
                         cfg = None
                         label = "generate_raised:%s" % type(e).__name__
                     if cfg is not None:
                         label = check_config(dag, cfg)
+                        if label is None:
+                            l2 = check_config(dag, cfg2)
+                            if l2:
+                                label = "second_generate_on_same_object:" + l2
                         if label is None:
                             dm = snapshot_diff(snap, graph_snapshot(dag))
                             if dm:
@@ -177,7 +187,7 @@ FUN = ["ml_pipeline_viewer/visualization/dag.py::GraphConfigImpl._generate_nodes
 A = ["importlib_resources and distutils.dir_util stubbed as empty modules so that the viewer module imports "
      "(only build_static uses them; no property covers it)"]
 PARTS = [{"n3_kind": a, "n4_kind": b} for a in range(4) for b in range(4)]
-for v, tier in (("plain", "quick"), ("generic", "quick"), ("custom_type", "quick"), ("untyped", "quick")):
+for v, tier in (("plain", "quick"), ("generic", "quick"), ("custom_type", "quick"), ("untyped", "quick"), ("enum_typed", "quick")):
     register(Job("C20", "family_" + v, make(v), tier=tier, budget_s=600, parts=PARTS,
                  goals=("n3:sw", "n3:oneof", "n3:rec", "n4:sw", "n4:oneof", "n4:rec"),
                  doc={"template": "C15 family (5 declarations, every mark kind), variant " + v,
